@@ -61,6 +61,9 @@ func c20schema(r *rand.Rand) string {
 					f.typ, f.def = ">=0 & <=9 | *"+v, v
 					f.typ = "*" + v + " | (>=0 & <=9)"
 				}
+				if r.IntN(6) == 0 {
+					f.typ, f.def = "*1 | *2 | int", pick("1", "2")
+				}
 			case "on":
 				f.typ, f.def = pick("*true | bool", "bool", "true"), "true"
 				if f.typ == "bool" {
@@ -77,6 +80,9 @@ func c20schema(r *rand.Rand) string {
 					f.typ, f.def = "string", ""
 				default:
 					f.typ, f.def = `*` + v + ` | "x" | "y"`, v
+				}
+				if r.IntN(5) == 0 { // several defaults: data has to pick one of them
+					f.typ, f.def = `*"small" | *"large" | string`, pick(`"small"`, `"large"`)
 				}
 			}
 			opt := ""
